@@ -596,6 +596,7 @@ func engineStatic(which string) engineFn {
 				{
 					one, both := f.clone(), f.clone()
 					t1, t2 := one.table("stop_times.txt"), both.table("stop_times.txt")
+					blankDefaults := g.coin(0.5) // the defaults of the other cells must not depend on which time was given
 					for k := range t1.rows {
 						if g.coin(0.5) {
 							t1.rows[k]["departure_time"] = ""
@@ -603,6 +604,12 @@ func engineStatic(which string) engineFn {
 						} else {
 							t1.rows[k]["arrival_time"] = ""
 							t2.rows[k]["arrival_time"] = t2.rows[k]["departure_time"]
+						}
+						if blankDefaults {
+							for _, c := range []string{"timepoint", "pickup_type", "drop_off_type", "continuous_pickup", "continuous_drop_off"} {
+								t1.rows[k][c] = ""
+								t2.rows[k][c] = map[string]string{"timepoint": "1", "pickup_type": "0", "drop_off_type": "0", "continuous_pickup": "", "continuous_drop_off": ""}[c]
+							}
 						}
 					}
 					m1, m2 := renderFeed(nil, canonicalPresentation(one), one), renderFeed(nil, canonicalPresentation(both), both)
@@ -648,6 +655,34 @@ func engineStatic(which string) engineFn {
 				oc := odd.table("calendar_dates.txt")
 				for k := g.r.Intn(4); k > 0; k-- {
 					oc.rows = append(oc.rows, srow{"service_id": g.pick(append(svcIDs, "GHOST")), "date": g.pick([]string{"19990101", "20991231"}), "exception_type": g.pick([]string{"0", "3", "x"})})
+				}
+				// well-formed digits that name no day: such rows are rejected (neither create nor stretch nor add)
+				imp := ff.clone()
+				impossible := []string{"20230229", "20230431", "20230931", "20231301", "20230100", "20230132", "00000000", "20240230"}
+				ic := imp.table("calendar_dates.txt")
+				for k := 1 + g.r.Intn(4); k > 0; k-- {
+					row := srow{"service_id": g.pick(append(svcIDs, "GHOST")), "date": g.pick(impossible), "exception_type": g.pick([]string{"1", "2"})}
+					pos := g.r.Intn(len(ic.rows) + 1)
+					ic.rows = append(ic.rows[:pos], append([]srow{row}, ic.rows[pos:]...)...)
+				}
+				if cal := imp.table("calendar.txt"); cal != nil && len(cal.rows) > 0 && g.coin(0.5) {
+					bad := srow{}
+					for kk, vv := range cal.rows[0] {
+						bad[kk] = vv
+					}
+					bad["service_id"] = "BADCAL"
+					bad[g.pick([]string{"start_date", "end_date"})] = g.pick(impossible)
+					cal.rows = append(cal.rows, bad)
+				}
+				mi := renderFeed(nil, canonicalPresentation(imp), imp)
+				if ri := runStatic(mi, false, inherit); ri.err == nil && !ri.cr.panicked {
+					ctx.evaluations++
+					if rr := runStatic(renderFeed(nil, canonicalPresentation(ff), ff), false, inherit); rr.err == nil {
+						if d := diffLines(dumpStatic(ri.s), dumpStatic(rr.s)); d != "" {
+							ctx.violate("c11-impossible-date", "a calendar / calendar_dates row whose date names no day (e.g. 20230229, 20230431) is not rejected: "+d, map[string]any{"members": describeMembers(mi)})
+						}
+					}
+					addCase(inherit, mi, ri.s, feedZones(imp))
 				}
 				ms, mo := renderFeed(nil, canonicalPresentation(ff), ff), renderFeed(nil, canonicalPresentation(odd), odd)
 				r, ro := runStatic(ms, false, inherit), runStatic(mo, false, inherit)
